@@ -1147,11 +1147,9 @@ def _atheris_child(argv: T.List[str]) -> None:
         stats['executions'] += 1
         if stats['executions'] % 2000 == 0:
             dump()
-        try:
-            text = data.decode('utf-8')
-        except UnicodeDecodeError:
-            stats['undecodable'] += 1
-            return
+        text = data.decode('utf-8', 'ignore')     # invalid UTF-8 sequences are dropped: the input domain is str
+        if len(text) != len(data):
+            stats['non_ascii_or_invalid_utf8'] += 1
         r = judge(text)
         for x in r.excluded:
             stats['excluded:' + x] += 1
@@ -1165,7 +1163,7 @@ def _atheris_child(argv: T.List[str]) -> None:
         if nt:
             distinct.add(_core.fp(text))
             key = 'accepted' if r.accepted else 'rejected'
-            if len(samples.setdefault(key, [])) < 3 and stats['executions'] > 500:
+            if len(samples.setdefault(key, [])) < 3 and stats['executions'] > 2000 and len(text) > 12:
                 samples[key].append(text[:200])
         if r.fail is not None:
             stats['failures'] += 1
@@ -1176,7 +1174,11 @@ def _atheris_child(argv: T.List[str]) -> None:
                 with open(os.path.join(out_dir, f'fail-{safe}.json'), 'w', encoding='utf-8') as fh:
                     json.dump(r.fail.to_json(), fh, ensure_ascii=False)
 
-    atheris.Setup([sys.argv[0], corpus_dir, f'-runs={runs}', f'-seed={seed}', f'-max_len={max_len}', '-print_final_stats=1',
+    dict_path = os.path.join(out_dir, 'tokens.dict')
+    with open(dict_path, 'w', encoding='ascii') as fh:
+        for tok in sorted(set(SIGMA_FULL + ['endif\n', 'endforeach\n', "'''", "f'", ' not in ', 'if a\n', 'foreach x : '])):
+            fh.write('"' + ''.join(c if (c.isalnum() or c in " _()[]{},.+-*%/:=<>?!#'@") else '\\x%02x' % ord(c) for c in tok) + '"\n')
+    atheris.Setup([sys.argv[0], corpus_dir, f'-dict={dict_path}', f'-runs={runs}', f'-seed={seed}', f'-max_len={max_len}', '-print_final_stats=1',
                    '-timeout=60', '-rss_limit_mb=4096', '-verbosity=0'], target)
     import atexit
     atexit.register(dump)
@@ -1243,7 +1245,7 @@ def run_atheris(ctx: Ctx, runs: int, jobs: int) -> None:
     ctx.ev.add_distinct(distinct)     # per-job distinct texts (jobs use different seeds; overlap between jobs is possible and not subtracted... see report)
     ctx.ev.event('atheris:executions', total['executions'])
     ctx.ev.event('atheris:accepted', total['accepted'])
-    ctx.ev.event('atheris:undecodable', total['undecodable'])
+    ctx.ev.event('atheris:non_ascii_or_invalid_utf8', total['non_ascii_or_invalid_utf8'])
     for k, v in total.items():
         if k.startswith('excluded:'):
             ctx.ev.exclude(k[len('excluded:'):], v)
@@ -1304,11 +1306,11 @@ def run(ctx: Ctx) -> None:
     ctx.ev.extra['alphabets'] = {n: SIGMAS[n] for n, _ in plans}
     # (b) soups / programs / text, (c) corpus mutations
     seeds = shard_seeds(ctx, 64)
-    shards = [('soup', s, ctx.n(700, 9000)) for s in seeds[0:16]] + [('program', s, ctx.n(700, 9000)) for s in seeds[16:32]] + \
-             [('text', s, ctx.n(300, 4000)) for s in seeds[32:40]]
+    shards = [('soup', s, ctx.n(1500, 12000)) for s in seeds[0:16]] + [('program', s, ctx.n(1500, 12000)) for s in seeds[16:32]] + \
+             [('text', s, ctx.n(600, 5000)) for s in seeds[32:40]]
     pmap(ctx, _hyp_shard, shards)
     _stage(ctx, 'hypothesis_soup_program_text')
-    pmap(ctx, _mutation_shard, [(s, ctx.n(700, 9000)) for s in seeds[40:56]])
+    pmap(ctx, _mutation_shard, [(s, ctx.n(1200, 10000)) for s in seeds[40:56]])
     _stage(ctx, 'corpus_mutation')
     # (f) atheris
     if not ctx.quick:
